@@ -301,6 +301,24 @@ def newNode (self : String) (gbps : List String) : Node :=
             self := self, genesis := g, done := false, best := "", ls := default, bl := default,
             blBest := "", panicked := false }
 
+/-- The operations a chain service performs on the node (the histories the theorems quantify over). -/
+inductive Op where
+  | blk (b : Blk)                       -- a block is stored (by hash)
+  | update (b : Blk) (hint : String)    -- Status.Update(b)
+  | connect (b : Blk)                   -- connectToChain(b)
+  | swap (bs : List Blk)                -- swapChainMapping(bs), top first
+  | restart                             -- process restart on the same store
+deriving Repr
+
+def Node.apply (n : Node) : Op → Node
+  | .blk b => if (findBlk n.blocks b.id).isSome then n else { n with blocks := b :: n.blocks }
+  | .update b hint => statusUpdate n b hint
+  | .connect b => connect n b
+  | .swap bs => (swap n bs).1
+  | .restart => restart n
+
+def Node.run (n : Node) (ops : List Op) : Node := ops.foldl Node.apply n
+
 /-- What a block factory on this node puts into `Confirms` (blockfactory.go: `block.BlockNo() - lpbNo`, uint64). -/
 def honestConfirms (no lpb : Nat) : Nat := (no + u64 - lpb % u64) % u64
 
